@@ -147,6 +147,7 @@ BindOne(s, modq, m, orig, as, fallback) ==
       \* an object is not moved into itself or one of its members, a root stays where it is, modules live in packages only
       movable == ob # NoObj /\ ob \notin AncestorsOf(Cur) /\ s.objs[ob].par # NoObj
                  /\ ~(IsModCls(Cls(s, ob)) /\ Cls(s, Cur) # "Package")
+                 /\ IsModCls(Cls(s, s.objs[ob].par))                  \* an alias of a class member (run = K.run): the member stays
       move == isM /\ as \in CurExports(s) /\ movable /\ ~originListsIt
   IN IF move THEN Reparent(s, ob, Cur, as)
      ELSE SetAlias(s, Cur, as, fallback)
